@@ -1,6 +1,6 @@
 SPECIFICATION Spec
 CONSTANTS
-  MaxT = 6
+  MaxT = 5
   MaxG = 3
   Impl = "fixed"
   Gives = TRUE
